@@ -110,6 +110,9 @@ def gen_rdms_spec(rng, n_rdm=(1, 6), n_cond=(3, 9), nan_prob=0.25, groupings=Tru
         spec['rdm_desc']['extra'] = {'values': ['x%d' % u for u in rdm_uids], 'container': rng.pick(['list', 'array'])}
     if rng.chance(0.7):
         spec['pat_desc']['extra'] = {'values': ['c%d' % u for u in cond_uids], 'container': rng.pick(['list', 'array'])}
+    if rng.chance(0.45):
+        # a strictly increasing numeric descriptor held as ndarray (positions, onsets ...): unique and sorted
+        spec['pat_desc']['pos'] = {'values': [10 * (i + 1) + 5 for i in range(nc)], 'container': 'array', 'kind': 'unique', 'type': 'int'}
     if rng.chance(nan_prob) and nc >= 4:
         for _ in range(rng.randint(1, 2)):
             i, j = sorted(rng.sample(range(nc), 2))
